@@ -477,11 +477,11 @@ def main():
 
     def compare(case, dm, di):
         """model vs implementation on the keys the model prints"""
-        for k in ("np", "rt", "eb", "e1", "wpd", "wid", "wdp", "wdi"):
+        for k in ("np", "rt", "ft", "eb", "e1", "wpd", "wid", "wdp", "wdi"):
             if k in dm:
                 if k not in di: return "%s missing" % k
                 # model_exact: the float instantiation mirrors the order of the floating point operations of the C++ (ResizeLayer)
-                i = vdiff(dm[k], di[k], case.an.exact or getattr(case.an, "model_exact", False) or k in ("np", "rt"))
+                i = vdiff(dm[k], di[k], case.an.exact or getattr(case.an, "model_exact", False) or k in ("np", "rt", "ft"))
                 if i is not None: return "%s[%d]: model %r implementation %r" % (k, i, dm[k][i] if i >= 0 else len(dm[k]), di[k][i] if i >= 0 else len(di[k]))
         return None
 
